@@ -667,10 +667,13 @@ func (c *c09Ctx) mutationCheck(w *c09Worker, hist []c09Op, m0 c09Model) int {
 					continue // key created by Append outside the alphabet
 				}
 				for _, newVal := range []int{3 /*nil*/, 1 /*y*/} {
-					for _, via := range []string{"tb.RawSet", "lua_reg"} {
+					for _, via := range []string{"tb.RawSet", "lua_reg", "tb.Remove(last)"} {
 						tb, m, ok := c.replay(w, hist, false)
 						if !ok {
 							return runs
+						}
+						if via == "tb.Remove(last)" && (newVal != 3 || tb.Len() == 0 || target != c09IntName(tb.Len())) {
+							continue // removing the last list element is the clear of t[#t], nothing else
 						}
 						runs++
 						var visited [][2]lua.LValue
@@ -688,7 +691,11 @@ func (c *c09Ctx) mutationCheck(w *c09Worker, hist []c09Op, m0 c09Model) int {
 							if !seen && newVal == 3 {
 								clearedBeforeVisit = true
 							}
-							mutErr = w.applySet(tb, via, ki, newVal)
+							if via == "tb.Remove(last)" {
+								tb.Remove(-1) // what table.remove(t) does: may shrink the array part under the traversal
+							} else {
+								mutErr = w.applySet(tb, via, ki, newVal)
+							}
 							if newVal == 3 {
 								delete(m, target)
 							} else {
